@@ -106,11 +106,14 @@ Dirs(fmt, i) ==
 
 \* a number: sign, then the magnitude padded to the width.  conv = 1 counts the
 \* sign as part of the width (the C convention), conv = 0 does not (jiff's).
-NumTxt(n, defpad, defw, d, conv) ==
-  LET pad == IF d.flag = 48 THEN 48 ELSE IF d.flag = 95 THEN 32 ELSE defpad
+NumTxt(n, defpad0, defw, d, conv) ==
+  LET \* directives without a width of their own (%C %u %w %s): which byte an explicit
+      \* width pads with is not settled; conv >= 2 tries the other one
+      defpad == IF defw = 0 /\ conv >= 2 THEN (IF defpad0 = 32 THEN 48 ELSE 32) ELSE defpad0
+      pad == IF d.flag = 48 THEN 48 ELSE IF d.flag = 95 THEN 32 ELSE defpad
       w   == IF d.flag = 45 THEN 0 ELSE IF d.width >= 0 THEN Min2(d.width, 19) ELSE defw
   IN IF n >= 0 THEN PadTo(DigR(n), pad, w)
-     ELSE <<45>> \o PadTo(DigR(0 - n), pad, IF conv = 1 /\ w > 0 THEN w - 1 ELSE w)
+     ELSE <<45>> \o PadTo(DigR(0 - n), pad, IF conv % 2 = 1 /\ w > 0 THEN w - 1 ELSE w)
 
 \* a name: default case "A" as is, "U" upper; ^ forces upper, # swaps
 StrTxt(s, defcase, d) ==
@@ -187,8 +190,8 @@ ExpDir(v, d, conv) ==
                              IF ~InTsRange(t) THEN Err
                              ELSE LET tx == BigTxt(BSecOf(t))
                                       w  == IF d.flag = 45 \/ d.width < 0 THEN 0 ELSE Min2(d.width, 19)
-                                      pad == IF d.flag = 48 THEN 48 ELSE 32
-                                  IN IF tx[1] = 45 THEN <<45>> \o PadTo(Tail(tx), pad, IF conv = 1 /\ w > 0 THEN w - 1 ELSE w)
+                                      pad == IF d.flag = 48 THEN 48 ELSE IF d.flag # 95 /\ conv >= 2 THEN 48 ELSE 32
+                                  IN IF tx[1] = 45 THEN <<45>> \o PadTo(Tail(tx), pad, IF conv % 2 = 1 /\ w > 0 THEN w - 1 ELSE w)
                                      ELSE PadTo(tx, pad, w)
                         ELSE Err)
          [] c = 84  -> Cat(Sub(72), Cat(<<58>>, Cat(Sub(77), Cat(<<58>>, Sub(83)))))    \* %T = %H:%M:%S
